@@ -52,6 +52,10 @@ pub fn run(_env: &Env, run: &Run) -> (Stats, Coverage) {
     // ASCII strings (two fillers), alphabet symbols alone and in pairs inside 16..41-byte ASCII strings,
     // all of them at every address residue modulo 8 / 16 (sub-slices of a larger buffer)
     st.merge(run_structural(&sigma, run.tier, |s, st| visit(s, st)));
+    for class in [crate::subject::Class::Identifier, crate::subject::Class::Freeform] {
+        let stairs = block_staircases(_env, class);
+        st.merge(run_family(&stairs, |s, st| visit(s, st)));
+    }
     if run.tier == Tier::Thorough && !lite() {
         // a label of more than 4 GiB with the cased characters behind offset 2^32
         check_rule_giga(Prof::Ucm, RuleFn::Case, "A\u{130}\u{3a3}z\u{1c5}", ref_lower, &mut st);
